@@ -269,9 +269,12 @@ Definition gfailing (l : list gcase) : list (N * (N * N)) := gfailing_from 0 l.
 
 (** the motor law alone: compute_torque then compute_electric_current at a given speed and duty cycle *)
 Inductive mexp := MOk (T : fu) (cur : option fu) | MErr (e : exn).
-Record mcase := { mc_motor : @motor FX; mc_spd : fqty; mc_pwm : float; mc_exp : mexp }.
+(* [mc_tq_unit]: between the two calls the user re-expresses the motor's driving torque in that unit (a copying [to]) *)
+Record mcase := { mc_motor : @motor FX; mc_spd : fqty; mc_pwm : float; mc_tq_unit : option string; mc_exp : mexp }.
 Definition mcase_code (k : mcase) : N :=
-  let r := (d <- motor_torque (mc_motor k) (mc_spd k) (mc_pwm k) ;; c <- motor_current (mc_motor k) d (mc_pwm k) ;; Ok (d, c)) in
+  let r := (d <- motor_torque (mc_motor k) (mc_spd k) (mc_pwm k) ;;
+            d' <- match mc_tq_unit k with Some u => q_to d u | None => Ok d end ;;
+            c <- motor_current (mc_motor k) d' (mc_pwm k) ;; Ok (d, c)) in
   match r, mc_exp k with
   | Ok (d, c), MOk T cur =>
       let cmp (tol : bool) : N :=
